@@ -178,6 +178,36 @@ Example C11_seq_nonvacuous :
   map (fun r => match r with Ok (Some _) => 1%N | Ok None => 0%N | _ => 2%N end) (fst (regcomp_seq bad_then_good true)) = [0%N; 1%N].
 Proof. exact entry_reset_example. Qed.
 
+(* ---- start positions are character starts, WHATEVER bytes the pattern consists of ------------------------------------
+   C11_char_boundaries needs a valid UTF-8 pattern (a truncated lead byte in the pattern can end a match inside a
+   character).  The START of a match does not: regexec steps through a valid UTF-8 line by uc_len, so for EVERY accepted
+   byte string (stray continuation bytes, truncated leads ...), all flags and depths, a reported match is a derivation of
+   the pattern that starts at the byte offset of a character of the line ... *)
+From NV Require Import ReBoundary2.
+Theorem C11_match_starts_on_boundary : forall pat p cflg nsub eflg d subs c cs,
+  Forall scalar cs -> regcomp pat = Ok (Some p) ->
+  regexec_d d p cflg (chars cs) nsub eflg = (Ok (Some subs), c) ->
+  exists k s1, k <= length cs /\
+    M st (atom_step (Z.lor cflg eflg) (chars cs)) mark_step (tr (tree p)) (mark_step 0 (ReProps4.init (off_of cs k))) s1 /\
+    subs = psub_of (snd (mark_step 1 s1)) nsub.
+Proof. exact regexec_starts_on_boundary. Qed.
+Print Assumptions C11_match_starts_on_boundary.
+
+(* ... and rm_so of the whole match is that offset *)
+Theorem C11_start_offset_is_boundary : forall pat p cflg nsub eflg d subs c cs,
+  Forall scalar cs -> regcomp pat = Ok (Some p) -> 1 <= nsub ->
+  regexec_d d p cflg (chars cs) nsub eflg = (Ok (Some subs), c) ->
+  exists k, k <= length cs /\ fst (nth 0 subs ((-1)%Z, (-1)%Z)) = Z.of_nat (off_of cs k).
+Proof. exact regexec_start_offset. Qed.
+Print Assumptions C11_start_offset_is_boundary.
+
+(* "(\xa9)+" (a stray continuation byte) finds nothing in "x\xc3\xa9y" although the byte occurs there; "a*\xc3" (ending in a
+   truncated lead byte) matches bytes 1..2: the start is the boundary of the second character, the end is not a boundary *)
+Example C11_stray_bytes_nonvacuous : exists p1 p2 c1 c2,
+  regcomp [40; 169; 41; 43]%N = Ok (Some p1) /\ regexec p1 0%Z (chars [120; 233; 121]%N) 1 0%Z = (Ok None, c1) /\
+  regcomp [97; 42; 195]%N = Ok (Some p2) /\ regexec p2 0%Z (chars [120; 233; 121]%N) 1 0%Z = (Ok (Some [(1, 2)]%Z), c2).
+Proof. do 4 eexists. split; [vm_compute; reflexivity|]. split; [vm_compute; reflexivity|]. split; [vm_compute; reflexivity|]. vm_compute; reflexivity. Qed.
+
 (* ---- the leaf functions of the model are the C text of /repo/regex.c (translation tie, coq/TrRegex.v) ----------------
    tools/c2clite.py prints regex.c's private uc_len, uc_dec, uc_beg, isword and brk_len as CLite terms (GenCFuncs.v:
    F_re_uc_len, F_re_uc_dec, F_re_uc_beg, F_re_isword, F_brk_len; semantics with checked loads in CLite.v).  For EVERY
